@@ -1,8 +1,9 @@
 #!/bin/bash
-# usage: try_patch.sh <patch> [-R] <prop...>   apply patch to /repo, run checks, undo
-P=$1; shift; REV=""
+# usage: try_patch.sh <patch> [-R] <prop...>   applies the patch to a scratch copy of /repo (never /repo itself) and runs the checks there
+P=$(realpath "$1"); shift; REV=""
 if [ "$1" = "-R" ]; then REV="-R"; shift; fi
-cd /repo && git apply $REV $P || { echo APPLY-FAILED; exit 2; }
+D=$(mktemp -d /tmp/tp.XXXXXX)
+cp -r /repo/src /repo/Cargo.toml /repo/Cargo.lock $D/ && cd $D && git init -q && git apply $REV "$P" || { echo APPLY-FAILED; rm -rf $D; exit 2; }
 cd /verif
-for p in "$@"; do ./check $p > /tmp/try_$p.out 2>&1; echo "$p exit=$? $(grep -c '^VIOLATION' /tmp/try_$p.out) violations; $(grep -m3 'rule ' /tmp/try_$p.out | cut -c1-260)"; done
-git -C /repo checkout -- . ; git -C /repo status --short
+for p in "$@"; do ATSA_REPO=$D ATSA_EVIDENCE_DIR=$D/ev ./check $p > $D/try_$p.out 2>&1; echo "$p exit=$? $(grep -c '^VIOLATION' $D/try_$p.out) violations; $(grep -m3 'rule ' $D/try_$p.out | cut -c1-260)"; done
+rm -rf $D
